@@ -1016,6 +1016,7 @@ func (s *Store[K, V]) Recover(version uint64, reader io.Reader) error {
 	block := &DataBlock[any]{}
 	s.policyMu.Lock()
 	defer s.policyMu.Unlock()
+	metaSeen := false
 	for {
 		// reset block first
 		block.Data = nil
@@ -1031,6 +1032,12 @@ func (s *Store[K, V]) Recover(version uint64, reader io.Reader) error {
 		}
 
 		reader := bytes.NewReader(block.Data)
+		// the block type is not covered by the checksum: the metadata block
+		// (version, clock origin) must have been seen before anything else is
+		// accepted, and a type that no writer produces is damage, not something to skip
+		if block.Type != 1 && !metaSeen {
+			return errors.New("metadata block missing")
+		}
 		if block.Type == 255 {
 			break
 		}
@@ -1045,6 +1052,7 @@ func (s *Store[K, V]) Recover(version uint64, reader io.Reader) error {
 			if m.Version != version {
 				return VersionMismatch
 			}
+			metaSeen = true
 			s.timerwheel.clock.SetStart(m.StartNano)
 			s.policy.sketch.EnsureCapacity(uint(m.Total))
 		case 2: // window lru
@@ -1125,6 +1133,8 @@ func (s *Store[K, V]) Recover(version uint64, reader io.Reader) error {
 					s.policy.weightedSize += uint(entry.policyWeight)
 				}
 			}
+		default:
+			return fmt.Errorf("unknown block type %d", block.Type)
 		}
 	}
 	return nil
